@@ -348,7 +348,8 @@ structure NodeSol where
 
 def nodeSol (Ls : List C11.Mat) (u bc : Nat → Vec 2) (v : Nat) : NodeSol :=
   let R := G.region bc v
-  let ul := G.uLoc u v
+  let cs := G.cellsOf v
+  let ul : Nat → Vec 2 := fun k => u (cs.getD k 0)   -- = `G.uLoc u v`, with `cellsOf` evaluated once
   let y := C11.mulVec (Ls.getD v []) (R.rhs2 ul)
   ⟨R, ul, unflat y⟩
 
@@ -382,15 +383,18 @@ def faceTraction (sol : Nat → NodeSol) (f : Nat) : Vec 2 :=
 def faceDisp (sol : Nat → NodeSol) (f : Nat) : Vec 2 :=
   fun a => sumList ((G.fnodes f).map (fun v => G.subU (sol v) v f a)) / G.nN f
 
-/-- node solutions tabulated once (driver) -/
-def solTable (Ls : List C11.Mat) (u bc : Nat → Vec 2) : Nat → NodeSol :=
-  let tab := (List.range G.numNodes).map (G.nodeSol Ls u bc)
-  fun v => tab.getD v (G.nodeSol Ls u bc v)
+/-- look a node solution up in a table computed once (execution detail: a definition returning a
+    function would be re-evaluated on every call) -/
+def solOf (tab : List NodeSol) (dflt : Nat → NodeSol) : Nat → NodeSol :=
+  fun v => match tab[v]? with
+    | some s => s
+    | none => dflt v
 
 /-- `stress·u + bound_stress·bc` and `bound_displacement_cell·u + bound_displacement_face·bc`,
     per face as `[t_x, t_y]`, `[u_x, u_y]` -/
 def apply (Ls : List C11.Mat) (u bc : Nat → Vec 2) : List (List Rat) × List (List Rat) :=
-  let sol := G.solTable Ls u bc
+  let tab := (List.range G.numNodes).map (G.nodeSol Ls u bc)
+  let sol := solOf tab (G.nodeSol Ls u bc)
   ((List.range G.numFaces).map (fun f => vecToList (G.faceTraction sol f)),
    (List.range G.numFaces).map (fun f => vecToList (G.faceDisp sol f)))
 
